@@ -7,6 +7,7 @@ from ..sexpr import A, dumps, loads
 from .. import fir
 
 INLINE = 'loki inline'
+TIME_LIMIT = 8
 
 
 def h(x):
@@ -206,6 +207,12 @@ def real_apply(mode, prog):
     else:
         sf = fir.parse_fortran(fir.emit_fortran(prog, wrap_program=False))
     k = sf[m]
+    import signal
+
+    def _alarm(signum, frame):
+        raise TimeoutError('transformation did not finish within %d s' % TIME_LIMIT)
+    old = signal.signal(signal.SIGALRM, _alarm)
+    signal.alarm(TIME_LIMIT)
     try:
         if mode == 'marked':
             from loki.transformations.inline import inline_marked_subroutines
@@ -224,6 +231,9 @@ def real_apply(mode, prog):
         raise TransformError(f'{type(e).__name__}: {str(e)[:120]}') from e
     except Exception as e:
         raise TransformError(f'{type(e).__name__}: {str(e)[:120]}') from e
+    finally:
+        signal.alarm(0)
+        signal.signal(signal.SIGALRM, old)
     try:
         text = fgen(sf.ir)
         _fix_ranges(sf)
@@ -257,3 +267,730 @@ def decode(req):
     if main_unit(prog) is None:
         raise ValueError('no main unit')
     return kind, mode, prog, inputs, flag
+
+
+# ---------------------------------------------------------------- generators
+
+def rename_unit(u, ren):
+    """rename variables of a unit (dummies, declarations, every expression, DO variables, ASSOCIATE names)"""
+    def fe(e):
+        if h(e) in ('v', 'idx', 'sec') and str(e[1]) in ren:
+            return [e[0], A(ren[str(e[1])])] + list(e[2:])
+        return e
+
+    def fs(stmts):
+        out = []
+        for s in stmts:
+            if h(s) == 'do' and str(s[1]) in ren:
+                s = [s[0], A(ren[str(s[1])])] + list(s[2:])
+            elif h(s) == 'assoc':
+                s = [s[0], [[A(ren.get(str(b[0]), str(b[0]))), b[1]] for b in s[1]], s[2]]
+            out.append(s)
+        return out
+    p = fir.map_program([A('program'), u[1], u], fe=fe, fs=fs)
+    u2 = p[2]
+    args = [A(ren.get(str(a), str(a))) for a in u2[2]]
+    decls = [[d[0], A(ren.get(str(d[1]), str(d[1])))] + list(d[2:]) for d in u2[3]]
+    return [u2[0], u2[1], args, decls, u2[4]]
+
+
+def rename_callees(prog, suffix='q'):
+    """give every variable of every non-main unit a name no other unit uses (suffix + unit index)"""
+    m = str(prog[1])
+    us = []
+    for j, u in enumerate(units(prog)):
+        if str(u[1]) != m:
+            names = {str(d[1]) for d in u[3]} | stmts_names(u[4])
+            u = rename_unit(u, {x: f'{x}{suffix}{j}' for x in names})
+        us.append(u)
+    return fir.canon([A('program'), A(m)] + us)
+
+
+def add_inline_pragmas(rng, prog, p=0.85):
+    m = str(prog[1])
+
+    def fs(stmts):
+        out = []
+        for s in stmts:
+            if h(s) == 'callsub' and rng.random() < p:
+                out.append([A('nop'), A('pragma'), INLINE])
+            out.append(s)
+        return out
+    us = []
+    for u in units(prog):
+        if str(u[1]) == m:
+            u = fir.map_program([A('program'), A(m), u], fs=fs)[2]
+        us.append(u)
+    return fir.canon([A('program'), A(m)] + us)
+
+
+FIR_CFG = dict(max_stmts=8, max_depth=2, n_callees=(1, 2), callee_stmts=5, pragmas=('omp simd',),
+               weights={'call': 40, 'print': 4, 'assoc': 1, 'comment': 1, 'pragma': 1})
+PARAM_CFG = dict(max_stmts=10, max_depth=2, n_callees=(0, 1), callee_stmts=4, weights={'call': 6, 'print': 6})
+
+V, I, BIN, NEG = fir.V, fir.I, fir.BIN, fir.NEG
+
+
+def _decl(name, ty, intent='none', dims=(), param=None):
+    return [A('decl'), A(name), A(ty), A(intent), [list(d) for d in dims], fir.NONE if param is None else param]
+
+
+def gen_scalar_program(rng):
+    """caller `kernel` + callee `sub1` with scalar dummies and a straight-line / IF body (the class the Lean theorem covers),
+    with deliberately placed hazards: callee locals named like caller variables (shadow renaming), a caller variable that already
+    has the generated name, expression actuals mentioning variables the callee writes, actuals mentioning names of callee dummies,
+    PRINT statements in the callee."""
+    ints = ['k1', 'k2', 'k3']
+    reals = ['x1', 'x2']
+    caller_locals = [('t', 'int'), ('l1', 'int')]
+    if rng.random() < 0.12:
+        caller_locals.append(('sub1_t', 'int'))
+    # callee signature
+    nd = rng.randint(1, 4)
+    dummies = []
+    pool = ['u', 'v', 'w', 'z']
+    capture_names = rng.random() < 0.15
+    for j in range(nd):
+        ty = 'real' if rng.random() < 0.25 else 'int'
+        intent = rng.choice(('in', 'in', 'inout', 'inout', 'out'))
+        name = pool[j]
+        if capture_names and rng.random() < 0.5:
+            name = rng.choice(ints if ty == 'int' else reals)
+            if name in [d[0] for d in dummies]:
+                name = pool[j]
+        dummies.append((name, ty, intent))
+    locs = []
+    for name in rng.sample(['t', 'l1', 'k3', 'q'], rng.randint(0, 2)):
+        if name not in [d[0] for d in dummies]:
+            locs.append((name, 'int'))
+    defined = {d[0] for d in dummies if d[2] != 'out'}
+    tyof = {d[0]: d[1] for d in dummies}
+    tyof.update(dict(locs))
+
+    def iexpr(depth=2):
+        cands = [x for x in defined if tyof[x] == 'int']
+        r = rng.random()
+        if depth == 0 or r < 0.3 or not cands:
+            return V(rng.choice(cands)) if cands and rng.random() < 0.7 else fir.ilit(rng.randint(-4, 9))
+        op = rng.choice(('add', 'add', 'sub', 'mul'))
+        a, b = iexpr(depth - 1), iexpr(depth - 1)
+        if op == 'mul':
+            b = fir.ilit(rng.randint(2, 3))
+        return BIN(op, a, b)
+
+    def rexpr(depth=1):
+        cands = [x for x in defined if tyof[x] == 'real']
+        if depth == 0 or not cands or rng.random() < 0.4:
+            return V(rng.choice(cands)) if cands and rng.random() < 0.7 else fir.rlit(Fraction(rng.randint(-8, 16), 4))
+        return BIN(rng.choice(('add', 'sub')), rexpr(depth - 1), rexpr(depth - 1))
+
+    def expr_for(x):
+        return iexpr() if tyof[x] == 'int' else rexpr()
+
+    writable = [d[0] for d in dummies if d[2] != 'in'] + [l[0] for l in locs]
+
+    def simple_stmt():
+        r = rng.random()
+        if r < 0.12 and defined:
+            return [A('print'), expr_for(rng.choice(sorted(defined)))]
+        if not writable:
+            return [A('print'), fir.ilit(1)]
+        x = rng.choice(writable)
+        s = [A('assign'), V(x), expr_for(x)]
+        defined.add(x)
+        return s
+    body = []
+    for _ in range(rng.randint(2, 5)):
+        if rng.random() < 0.15 and any(tyof[x] == 'int' for x in defined):
+            c = BIN(rng.choice(('lt', 'ge', 'eq')), iexpr(1), fir.ilit(rng.randint(0, 5)))
+            before = set(defined)
+            thn = [simple_stmt() for _ in range(rng.randint(1, 2))]
+            d1 = set(defined)
+            defined.clear(); defined.update(before)
+            els = [simple_stmt() for _ in range(rng.randint(0, 2))]
+            d2 = set(defined)
+            defined.clear(); defined.update(d1 & d2)
+            body.append([A('if'), c, thn, els])
+        else:
+            body.append(simple_stmt())
+    for d in dummies:
+        if d[2] == 'out' and d[0] not in defined:
+            body.append([A('assign'), V(d[0]), fir.ilit(7) if d[1] == 'int' else fir.rlit(Fraction(3, 2))])
+            defined.add(d[0])
+    callee = [A('unit'), A('sub1'), [A(d[0]) for d in dummies],
+              [_decl(d[0], d[1], d[2]) for d in dummies] + [_decl(l[0], l[1]) for l in locs], body]
+    # caller
+    kdecls = [_decl(x, 'int', 'inout') for x in ints] + [_decl(x, 'real', 'inout') for x in reals] + \
+             [_decl('a1', 'int', 'inout', [(fir.ilit(1), fir.ilit(4))])] + [_decl(n, t) for n, t in caller_locals]
+    kbody = [[A('assign'), V(n), fir.ilit(rng.randint(0, 3))] for n, _ in caller_locals]
+
+    def actuals():
+        used = set()
+        out = []
+        for name, ty, intent in dummies:
+            if intent == 'in':
+                r = rng.random()
+                base = rng.choice(ints + ['t'] if ty == 'int' else reals)
+                if ty == 'int':
+                    e = V(base) if r < 0.35 else fir.ilit(rng.randint(0, 9)) if r < 0.5 else \
+                        BIN('add', V(base), fir.ilit(1)) if r < 0.8 else fir.IDX('a1', BIN('add', fir.CALL('mod', fir.CALL('abs', V(base)), fir.ilit(4)), fir.ilit(1)))
+                else:
+                    e = V(base) if r < 0.5 else fir.rlit(Fraction(rng.randint(-4, 8), 2)) if r < 0.65 else BIN('add', V(base), fir.rlit(Fraction(1, 2)))
+                out.append((e, False))
+            else:
+                cands = [x for x in (ints + ['l1'] if ty == 'int' else reals) if x not in used]
+                if ty == 'int' and rng.random() < 0.15:
+                    j = rng.randint(1, 4)
+                    if ('a1', j) not in used:
+                        used.add(('a1', j))
+                        out.append((fir.IDX('a1', fir.ilit(j)), True))
+                        continue
+                if not cands:
+                    return None
+                x = rng.choice(cands)
+                used.add(x)
+                out.append((V(x), True))
+        # a plain variable bound to an intent(in) dummy must not also be bound to a written dummy (Fortran's aliasing rule) unless
+        # the hazard is wanted: keep expression actuals (the re-evaluation class), drop plain aliasing
+        wr = {str(e[1]) for e, w in out if w and h(e) == 'v'}
+        for e, w in out:
+            if not w and h(e) == 'v' and str(e[1]) in wr:
+                return None
+        if rng.random() < 0.85:
+            for e, w in out:
+                if not w and ex_names(e) & wr:
+                    return None
+        return [e for e, _ in out]
+    ncalls = rng.randint(1, 2)
+    for _ in range(ncalls):
+        acts = None
+        for _try in range(20):
+            acts = actuals()
+            if acts is not None:
+                break
+        if acts is None:
+            return None
+        kbody.append([A('nop'), A('pragma'), INLINE])
+        kbody.append([A('callsub'), A('sub1')] + acts)
+    kbody.append([A('print')] + [V(n) for n, _ in caller_locals])
+    kernel = [A('unit'), A('kernel'), [A(x) for x in ints + reals + ['a1']], kdecls, kbody]
+    return fir.canon([A('program'), A('kernel'), kernel, callee])
+
+
+def scalar_inputs(rng, k):
+    out = []
+    for _ in range(k):
+        out.append([[A('k1'), I(rng.randint(-5, 9))], [A('k2'), I(rng.randint(-5, 9))], [A('k3'), I(rng.randint(-5, 9))],
+                    [A('x1'), fir.R(Fraction(rng.randint(-16, 16), 4))], [A('x2'), fir.R(Fraction(rng.randint(-16, 16), 4))],
+                    [A('a1')] + [I(rng.randint(-5, 9)) for _ in range(4)]])
+    return fir.canon(out)
+
+
+# ---------------------------------------------------------------- classification (mirrors of the Lean `Known…` / `Covered` defs)
+
+def decl_map(u):
+    return {str(d[1]): d for d in u[3]}
+
+
+def is_lit(e):
+    return h(e) in ('i', 'r', 'b') or (h(e) == 'neg' and h(e[1]) in ('i', 'r'))
+
+
+def below_top_names(e):
+    """names an actual mentions below its top node (the nodes `recursive_expression_map_update` rewrites)"""
+    k = h(e)
+    if k == 'v':
+        return set()
+    if k in ('idx', 'sec'):
+        n = set()
+        for c in e[2:]:
+            ex_names(c, n)
+        return n
+    return ex_names(e)
+
+
+def call_sites(mode, prog):
+    """(call statement, callee unit) for every call that gets inlined (callee known, argument count right)"""
+    out = []
+    m = str(prog[1])
+    for c in inlined_calls(mode, prog):
+        u = unit_named(prog, str(c[1]))
+        if u is None or str(u[1]) == m or len(u[2]) != len(c) - 2:
+            continue
+        out.append((c, u))
+    return out
+
+
+def callee_locals(u):
+    args = {str(a) for a in u[2]}
+    return [str(d[1]) for d in u[3] if str(d[1]) not in args]
+
+
+def caller_names(prog):
+    return {str(d[1]) for d in main_unit(prog)[3]}
+
+
+def duplicates(prog, u):
+    cn = caller_names(prog)
+    return [x for x in callee_locals(u) if x in cn]
+
+
+def written_dummies(u):
+    return written_names(u[4]) & {str(a) for a in u[2]}
+
+
+def known_print(mode, prog):
+    """Lean KnownPrint: an inlined callee has a PRINT statement mentioning one of its dummies or a local that gets renamed"""
+    for _, u in call_sites(mode, prog):
+        hot = {str(a) for a in u[2]} | set(duplicates(prog, u))
+        for s in all_stmts(u[4]):
+            if h(s) == 'print' and any(ex_names(e) & hot for e in s[1:]):
+                return True
+    return False
+
+
+def known_reeval(mode, prog):
+    """Lean KnownReeval: an actual that is neither a plain variable nor a literal mentions a variable that the callee writes through
+    a(nother) dummy (for an element actual: in its subscripts)"""
+    for c, u in call_sites(mode, prog):
+        wd = written_dummies(u)
+        wr = {str(a[1]) for d, a in zip(u[2], c[2:]) if str(d) in wd and h(a) in ('v', 'idx', 'sec')}
+        for a in c[2:]:
+            if h(a) == 'v' or is_lit(a):
+                continue
+            if below_top_names(a) & wr:
+                return True
+    return False
+
+
+def known_capture(mode, prog):
+    """Lean KnownCapture: an actual mentions, below its top node, a name that is also the name of a dummy of the callee"""
+    for c, u in call_sites(mode, prog):
+        dn = {str(a) for a in u[2]}
+        if any(below_top_names(a) & dn for a in c[2:]):
+            return True
+    return False
+
+
+def known_fresh_clash(mode, prog):
+    """Lean KnownFreshClash: the generated name `<callee>_<local>` of a renamed local is already a name of the caller or callee"""
+    cn = caller_names(prog)
+    for _, u in call_sites(mode, prog):
+        own = {str(d[1]) for d in u[3]}
+        for x in duplicates(prog, u):
+            if f'{u[1]}_{x}' in cn | own:
+                return True
+    return False
+
+
+def alias_precondition_violated(mode, prog):
+    """two actuals of an inlined call share their base variable and one of the two dummies is written by the callee, or a written
+    dummy is bound to something that is not a variable / element / section: not standard-conforming Fortran — outside the property"""
+    for c, u in call_sites(mode, prog):
+        wd = written_dummies(u)
+        acts = list(zip([str(d) for d in u[2]], c[2:]))
+        for j, (d, a) in enumerate(acts):
+            if d in wd and h(a) not in ('v', 'idx', 'sec'):
+                return True
+            if h(a) not in ('v', 'idx', 'sec'):
+                continue
+            for jj, (d2, a2) in enumerate(acts):
+                if jj != j and h(a2) in ('v', 'idx', 'sec') and str(a2[1]) == str(a[1]) and (d in wd or d2 in wd):
+                    if h(a) == 'idx' and h(a2) == 'idx' and dumps(a) != dumps(a2) and all(is_lit(s) for s in a[2:] + a2[2:]):
+                        continue     # two different constant elements
+                    return True
+    return False
+
+
+def known_hoisted_bounds(mode, prog):
+    """(python only) an inlined callee has a local array whose declared bounds mention a variable"""
+    for _, u in call_sites(mode, prog):
+        args = {str(a) for a in u[2]}
+        for d in u[3]:
+            if str(d[1]) not in args and any(ex_names(b[0]) | ex_names(b[1]) for b in d[4]):
+                return True
+    return False
+
+
+def _lit_int(e):
+    if h(e) == 'i':
+        return int(str(e[1]))
+    if h(e) == 'neg' and h(e[1]) == 'i':
+        return -int(str(e[1][1]))
+    return None
+
+
+def known_section_zero(mode, prog):
+    """(python only) an array actual is a section with a triplet whose lower bound is the literal 0"""
+    for c, u in call_sites(mode, prog):
+        for a in c[2:]:
+            if h(a) == 'sec' and any(h(d) == 'rng' and _lit_int(d[1]) == 0 for d in a[2:]):
+                return True
+    return False
+
+
+def known_array_mapping(mode, prog):
+    """(python only, broad) an inlined call binds an array dummy to anything but a whole array declared with the same rank and the
+    same literal lower bounds (and equal upper bounds where both are literals)"""
+    md = decl_map(main_unit(prog))
+    for c, u in call_sites(mode, prog):
+        ud = decl_map(u)
+        for d, a in zip(u[2], c[2:]):
+            dd = ud.get(str(d))
+            if dd is None or not dd[4]:
+                continue
+            if h(a) != 'v' or str(a[1]) not in md:
+                return True
+            ad = md[str(a[1])]
+            if len(ad[4]) != len(dd[4]):
+                return True
+            for (alo, ahi), (dlo, dhi) in zip(ad[4], dd[4]):
+                if _lit_int(alo) is None or _lit_int(alo) != _lit_int(dlo):
+                    return True
+                if _lit_int(ahi) is not None and _lit_int(dhi) is not None and _lit_int(ahi) != _lit_int(dhi):
+                    return True
+    return False
+
+
+CLASSES = [('inline-name-capture', known_capture), ('inline-print-not-substituted', known_print),
+           ('inline-actual-reevaluated', known_reeval), ('inline-fresh-name-clash', known_fresh_clash),
+           ('inline-hoisted-array-bounds', known_hoisted_bounds), ('inline-section-lower-zero', known_section_zero),
+           ('inline-array-argument-mapping', known_array_mapping)]
+SCALAR_CLASSES = CLASSES[:4]
+
+
+def covered(mode, prog):
+    """Lean Covered: the part of the input language the Lean model `inlineProgram` follows — every inlined callee has scalar
+    declarations only, no CALL / ASSOCIATE statement in its body, and every dummy it writes is bound to a variable or element"""
+    sites = call_sites(mode, prog)
+    if len(sites) != len(inlined_calls(mode, prog)):
+        return False
+    if mode == 'internal':
+        for u in units(prog):
+            if str(u[1]) != str(prog[1]) and any(h(s) == 'callsub' for s in all_stmts(u[4])):
+                return False
+    for c, u in sites:
+        if any(d[4] for d in u[3]):
+            return False
+        if {str(a) for a in u[2]} - {str(d[1]) for d in u[3]}:
+            return False
+        if any(h(s) in ('callsub', 'assoc') for s in all_stmts(u[4])):
+            return False
+        wd = written_dummies(u)
+        dov = {str(s[1]) for s in all_stmts(u[4]) if h(s) == 'do'}
+        for d, a in zip(u[2], c[2:]):
+            if str(d) in wd and h(a) not in ('v', 'idx'):
+                return False
+            if str(d) in dov and h(a) != 'v':
+                return False
+            if h(a) == 'sec':
+                return False
+    return True
+
+
+def strip_prog(prog):
+    """normalisation of the correspondence: comment statements dropped (the transformation inserts marker comments)"""
+    return fir.canon(fir.map_program(fir.canon(prog), fs=lambda ss: [s for s in ss if not is_comment(s)]))
+
+
+# ---------------------------------------------------------------- the property
+
+class C28(Prop):
+    id = 'C28'
+    title = 'Inlining preserves program behaviour'
+    model_modules = ['LokiModel.C28.Model', 'LokiModel.C28.Enc']
+    props_module = 'LokiModel.Props.C28'
+    findings_module = 'LokiModel.Findings.C28'
+    driver = 'Drivers/C28.lean'
+    theorems = ['inline_sound_partial', 'substM_evalE', 'param_inline_expr_sound']
+    design_ref = 'DESIGN.md 4.F C28'
+    level = 'proof'
+    level_text = ('inline_sound_partial (Lean, unbounded): for every callee with scalar dummies/locals whose body is a straight-line '
+                  'list of scalar assignments, PRINTs and comments, the body produced by the model of map_call_to_procedure_body '
+                  '(dummy -> actual substitution, renamed locals) run in the caller state reproduces the FIR copy-in/copy-out call: '
+                  'same printed output, same final values of every caller variable other than the hoisted locals, under the decidable '
+                  'conditions (i)-(iv) (written dummies bound to distinct variables, expression actuals do not mention written '
+                  'variables, fresh local names).  _partial: IF/DO/WHILE/SELECT bodies, array dummies and the lifting to the '
+                  'enclosing statement list are covered by correspondence + oracle only.  substM_evalE: substitution lemma for a '
+                  'variable-to-expression map.  param_inline_expr_sound: replacing a PARAMETER name by its value preserves every '
+                  'expression value.  Function inlining: direct oracle only (gfortran, thorough tier).')
+    level_note = ('The Lean model inlineProgram follows inline_subroutine_calls/map_call_to_procedure_body for callees with scalar '
+                  'declarations (class Covered); array dummies (_map_unbound_dims) are NOT modelled: direct oracle + python-side '
+                  'known classes only.')
+    technique = 'Lean 4 theorems about a hand-written model of the transformation on FIR programs + correspondence with the real code'
+    rule = ('cases: generated caller/callee pairs with scalar dummies (own generator with placed hazards), fir.gen_program programs '
+            'biased to calls (callee names renamed apart with p=0.6), marked (`!$loki inline`) and internal-procedure mode, '
+            'constant-parameter inlining on generated programs, templates with statement/contained functions (thorough); non-trivial = '
+            'at least one call is inlined / one parameter replaced; distinct by request text')
+    trusted_base = ['harness/fir.py (printer, exporter from Loki IR, reference interpreter)', 'gfortran 12.2 (thorough tier)']
+    assumptions = ['FIR call semantics (copy-in/copy-out) equals Fortran by-reference passing for alias-free conforming programs']
+    extra_obligations = ['oracle: original vs really inlined program on generated inputs']
+
+    def classes(self):
+        return [c for c, _ in CLASSES] + FUN_CLASSES + PARAM_CLASSES
+
+    # ---- generation
+    def gen(self, rng, tier):
+        n_scalar = {'quick': 40, 'thorough': 400, 'search': 150}.get(tier, 40)
+        n_fir = {'quick': 12, 'thorough': 220, 'search': 60}.get(tier, 12)
+        n_int = {'quick': 6, 'thorough': 80, 'search': 30}.get(tier, 6)
+        n_param = {'quick': 8, 'thorough': 100, 'search': 40}.get(tier, 8)
+        n_in = 2 if tier == 'quick' else 3
+        for j in range(n_scalar):
+            prog = gen_scalar_program(rng)
+            if prog is None:
+                continue
+            mode = 'internal' if rng.random() < 0.25 else 'marked'
+            gf = tier == 'thorough' and j % 8 == 0
+            yield Case([A('sub'), A(mode), prog, scalar_inputs(rng, n_in), A('gf' if gf else 'nogf')], stream='scalar-' + mode)
+        for j in range(n_fir + n_int):
+            mode = 'marked' if j < n_fir else 'internal'
+            prog = fir.gen_program(rng, FIR_CFG)
+            if rng.random() < 0.6:
+                prog = rename_callees(prog)
+            if mode == 'marked':
+                prog = add_inline_pragmas(rng, prog)
+            inputs = fir.gen_inputs(rng, prog, n_in)
+            gf = tier == 'thorough' and j % 5 == 0
+            yield Case([A('sub'), A(mode), prog, inputs, A('gf' if gf else 'nogf')], stream='fir-' + mode,
+                       nontrivial=bool(inlined_calls(mode, prog)))
+        for j in range(n_param):
+            prog = gen_param_program(rng)
+            inputs = fir.gen_inputs(rng, prog, n_in)
+            gf = tier == 'thorough' and j % 5 == 0
+            yield Case([A('param'), prog, inputs, A('gf' if gf else 'nogf')], stream='param',
+                       nontrivial=any(h(d[5]) is not None for u in units(prog) for d in u[3]))
+        if tier != 'quick':
+            for j in range({'thorough': 60, 'search': 20}.get(tier, 0)):
+                yield Case(gen_fun_request(rng), stream='fun')
+
+    # ---- real code
+    def impl(self, req):
+        if str(req[0]) == 'fun':
+            return [A('result'), A('oracle-only')]
+        kind, mode, prog, inputs, flag = decode(req)
+        if kind == 'param':
+            try:
+                tp, _ = real_apply('param', prog)
+            except (TransformError, Refused) as e:
+                return [A('error'), str(e)[:80]]
+            return [A('result'), strip_prog(tp)]
+        if not covered(mode, prog):
+            return [A('result'), A('excluded')]
+        cs = [A(c) for c, f in SCALAR_CLASSES if f(mode, prog)]
+        if 'inline-name-capture' in [str(c) for c in cs]:
+            return [A('result'), cs, A('captured')]
+        try:
+            tp, _ = real_apply(mode, prog)
+        except (TransformError, Refused) as e:
+            return [A('error'), str(e)[:80]]
+        return [A('result'), cs, strip_prog(tp)]
+
+    def canon_model(self, resp):
+        if h(resp) == 'result' and h(resp[-1]) == 'program':
+            return list(resp[:-1]) + [strip_prog(resp[-1])]
+        return resp
+
+    # ---- direct oracle
+    def classify(self, mode, prog):
+        for c, f in CLASSES:
+            if f(mode, prog):
+                return c
+        return None
+
+    def oracle(self, req):
+        if str(req[0]) == 'fun':
+            return fun_oracle(req)
+        kind, mode, prog, inputs, flag = decode(req)
+        if kind == 'param':
+            cls = param_class(prog)
+            what = 'inline_constant_parameters'
+        else:
+            if alias_precondition_violated(mode, prog):
+                return []
+            cls = self.classify(mode, prog)
+            what = f'inlining ({mode})'
+        try:
+            tp, text = real_apply(mode, prog)
+        except Refused:
+            return []
+        except TransformError as e:
+            return [Failure(f'{what}: transformation or export of its result failed: {str(e)[:140]}', cls)]
+        runs = []
+        for inp in inputs:
+            a = fir.interp(prog, inp)
+            if a[0] != 'ok':
+                continue
+            b = fir.interp(tp, inp)
+            d = fir.compare_results(a, b, undef_wild=False)
+            if d:
+                return [Failure(f'{what}: transformed program behaves differently (interpreter): {d}', cls)]
+            runs.append(inp)
+        if flag == 'gf' and runs:
+            err = fir.gfortran_syntax_check(text)
+            if err:
+                return [Failure(f'{what}: gfortran rejects the transformed code printed by fgen: {err[:160]}', cls)]
+            items = []
+            for inp in runs:
+                st = {}
+                fir.interp(prog, inp, stats=st)
+                if fir.exact_in_hardware(st):
+                    items += [(prog, inp), (tp, inp)]
+            res = fir.run_gfortran(items) if items else []
+            for k in range(0, len(res), 2):
+                if res[k][0] != 'ok':
+                    continue
+                d = fir.compare_results(res[k], res[k + 1])
+                if d:
+                    return [Failure(f'{what}: transformed program behaves differently (gfortran): {d}', cls)]
+        return []
+
+    def post(self, cases, impl_out, model_raw, oracle_fail):
+        """theorem domain vs oracle: a covered program outside all classes must pass the oracle"""
+        problems = []
+        bad = {c.line for c, f in oracle_fail if f.cls is None and not f.error}
+        n_dom = 0
+        for c in cases:
+            if str(c.req[0]) != 'sub':
+                continue
+            try:
+                kind, mode, prog, inputs, flag = decode(c.req)
+            except Exception:
+                continue
+            if covered(mode, prog) and self.classify(mode, prog) is None and not alias_precondition_violated(mode, prog):
+                n_dom += 1
+        return problems, dict(covered_outside_classes=n_dom, unclassified_failures=len(bad))
+
+
+# ---------------------------------------------------------------- constant parameters
+
+PARAM_CLASSES = ['param-print-not-substituted', 'param-nested-initialiser', 'param-type-conversion']
+
+
+def gen_param_program(rng):
+    """a generated program with extra PARAMETER constants in the main unit: used in expressions, some defined through another
+    parameter, some whose initial value has another type than the parameter"""
+    prog = fir.gen_program(rng, PARAM_CFG)
+    mu = main_unit(prog)
+    new = []
+    r = rng.random()
+    new.append(_decl('cc1', 'int', param=fir.ilit(rng.randint(-3, 7))))
+    if r < 0.25:
+        new.append(_decl('cc2', 'int', param=BIN('add', V('cc1'), fir.ilit(2))))
+    elif r < 0.4:
+        new.append(_decl('cc2', 'real', param=fir.ilit(3)))
+    else:
+        new.append(_decl('cc2', 'real', param=fir.rlit(Fraction(rng.randint(-6, 9), 4))))
+    ints = [str(d[1]) for d in mu[3] if str(d[2]) == 'int' and not d[4] and str(d[3]) in ('inout', 'out', 'none')
+            and h(d[5]) is None and not str(d[1]).startswith('i')]
+    extra = []
+    if ints:
+        x = rng.choice(ints)
+        is_real = str(new[1][2]) == 'real'
+        e2 = fir.CALL('int', BIN('mul', V('cc2'), fir.rlit(Fraction(1, 2)))) if is_real else V('cc2')
+        extra.append([A('assign'), V(x), BIN('add', BIN('mul', V('cc1'), fir.ilit(2)), e2)])
+        if is_real:
+            extra.append([A('assign'), V(x), BIN('add', V(x), BIN('div', fir.ilit(7), V('cc2')))]) if rng.random() < 0.5 else None
+        extra = [s for s in extra if s]
+        extra.append([A('print'), V(x), V('cc1'), BIN('sub', fir.ilit(1), V('cc1'))])
+    mu2 = [mu[0], mu[1], mu[2], list(mu[3]) + new, list(mu[4]) + extra]
+    return fir.canon([A('program'), prog[1]] + [mu2 if str(u[1]) == str(prog[1]) else u for u in units(prog)])
+
+
+def param_class(prog):
+    for u in units(prog):
+        pd = {str(d[1]): d for d in u[3] if h(d[5]) is not None}
+        for s in all_stmts(u[4]):
+            if h(s) == 'print' and any(ex_names(e) & set(pd) for e in s[1:]):
+                return 'param-print-not-substituted'
+        for d in pd.values():
+            if ex_names(d[5]) & set(pd):
+                return 'param-nested-initialiser'
+        for d in pd.values():
+            ty = str(d[2])
+            e = d[5]
+            lit_ty = {'i': 'int', 'r': 'real', 'b': 'logical'}.get(h(e[1]) if h(e) == 'neg' else h(e))
+            if lit_ty is not None and lit_ty != ty:
+                return 'param-type-conversion'
+            if lit_ty is None and ty != 'logical':
+                return 'param-type-conversion'   # an initialiser expression: conversion cannot be excluded syntactically
+    return None
+
+
+# ---------------------------------------------------------------- functions (direct oracle only, thorough tier)
+
+FUN_CLASSES = ['fun-result-conversion']
+
+
+def gen_fun_request(rng):
+    kind = rng.choice(('stmt', 'stmt', 'contained', 'elemental'))
+    a, b, c = rng.randint(-4, 6), rng.randint(1, 5), rng.randint(-3, 3)
+    conv = rng.random() < 0.2
+    variant = rng.randint(0, 3)
+    return [A('fun'), A(kind), a, b, c, A('conv' if conv else 'same'), variant]
+
+
+def fun_source(kind, a, b, c, conv, variant):
+    """(module text, kernel name): integer function f(u, v) used inside larger expressions of subroutine kernel(k, x, r)"""
+    fty = 'real' if conv else 'integer'
+    body_expr = ['u + v * 2', 'u * v - 1', '(u - v) * 3', 'mod(u, 5) + v'][variant]
+    use = [f'r(1) = f(k, {b}) * 2 + f({a}, k)', f'r(2) = 7 - f(k + ({c}), {b})', f'r(3) = f(f(k, 1), {b})',
+           f'r(4) = r(1) / f({b}, 1) + int(x)']
+    if kind == 'stmt':
+        decl = [f'  {fty} :: f', '  integer :: u, v', f'  f(u, v) = {body_expr}']
+        contains = []
+    else:
+        decl = []
+        pre = 'elemental ' if kind == 'elemental' else ''
+        contains = ['contains', f'  {pre}function f(u, v)', f'    {fty} :: f', '    integer, intent(in) :: u, v', '    integer :: t',
+                    f'    t = {body_expr}', '    f = t', '  end function f']
+    if conv:
+        use = [f'r(1) = int(f(k, {b}) / 2) + k', f'r(2) = int(f({a}, k) / 4 * 2)', 'r(3) = 0', 'r(4) = int(x)']
+    mod = ['module fmod', 'implicit none', 'contains', 'subroutine kernel(k, x, r)', '  integer, intent(in) :: k', '  real, intent(in) :: x',
+           '  integer, intent(out) :: r(4)'] + decl + ['  ' + l for l in use] + contains + ['end subroutine kernel', 'end module fmod']
+    return '\n'.join(mod) + '\n'
+
+
+def fun_oracle(req):
+    import subprocess, tempfile, os
+    kind, a, b, c, conv, variant = str(req[1]), int(str(req[2])), int(str(req[3])), int(str(req[4])), str(req[5]) == 'conv', int(str(req[6]))
+    cls = 'fun-result-conversion' if conv else None
+    src = fun_source(kind, a, b, c, conv, variant)
+    from loki import Sourcefile, fgen
+    from loki.frontend import FP
+    from loki.transformations.inline import inline_statement_functions, inline_functions, inline_elemental_functions
+    sf = Sourcefile.from_source(src, frontend=FP)
+    k = sf['kernel']
+    try:
+        if kind == 'stmt':
+            inline_statement_functions(k)
+        elif kind == 'elemental':
+            inline_elemental_functions(k)
+        else:
+            inline_functions(k)
+        text = fgen(sf.ir)
+    except Exception as e:
+        return [Failure(f'function inlining ({kind}) raised {type(e).__name__}: {str(e)[:120]}', cls)]
+    drv = '\n'.join(['program p', 'use fmod', 'implicit none', 'integer :: r(4), k', 'do k = -3, 6', '  r = -777',
+                     '  call kernel(k, 2.5d0 * k, r)', '  print *, r', 'end do', 'end program p']) + '\n'
+    outs = []
+    with tempfile.TemporaryDirectory() as d:
+        for tag, t in (('o', src), ('t', text)):
+            f = os.path.join(d, tag + '.f90')
+            with open(f, 'w') as fh:
+                fh.write(t + '\n' + drv)
+            p = subprocess.run([fir.GFORTRAN] + fir.GFORTRAN_FLAGS + ['-J', d, '-o', os.path.join(d, tag), f],
+                               stdout=subprocess.PIPE, stderr=subprocess.STDOUT, text=True, timeout=120, cwd=d)
+            if p.returncode != 0:
+                if tag == 'o':
+                    return []
+                return [Failure(f'function inlining ({kind}): gfortran rejects the transformed code: {p.stdout.strip()[:160]}', cls)]
+            q = subprocess.run([os.path.join(d, tag)], stdout=subprocess.PIPE, stderr=subprocess.STDOUT, text=True, timeout=60)
+            outs.append(q.stdout.split())
+    if outs[0] != outs[1]:
+        return [Failure(f'function inlining ({kind}): transformed program prints different values', cls)]
+    return []
+
+
+PROP = C28()
+READY = True
